@@ -2363,6 +2363,11 @@ impl Server {
             _ => false,
         };
         
+        // The only option there is: anything else in its place is a syntax error
+        if parts.len() == 5 && !with_scores {
+            return Ok(RespFrame::error("ERR syntax error"));
+        }
+        
         // Get range
         let members = self.storage.zrange(db, key, start, stop, false)?;
         
@@ -2426,6 +2431,11 @@ impl Server {
             }
             _ => false,
         };
+        
+        // The only option there is: anything else in its place is a syntax error
+        if parts.len() == 5 && !with_scores {
+            return Ok(RespFrame::error("ERR syntax error"));
+        }
         
         // Get range in reverse order
         let members = self.storage.zrange(db, key, start, stop, true)?;
@@ -2491,6 +2501,11 @@ impl Server {
             _ => false,
         };
         
+        // The only option there is: anything else in its place is a syntax error
+        if parts.len() == 5 && !with_scores {
+            return Ok(RespFrame::error("ERR syntax error"));
+        }
+        
         // Get range by score
         let members = self.storage.zrangebyscore(db, key, min_score, max_score, false)?;
         
@@ -2554,6 +2569,11 @@ impl Server {
             }
             _ => false,
         };
+        
+        // The only option there is: anything else in its place is a syntax error
+        if parts.len() == 5 && !with_scores {
+            return Ok(RespFrame::error("ERR syntax error"));
+        }
         
         // Get range by score in reverse order
         let members = self.storage.zrangebyscore(db, key, min_score, max_score, true)?;
